@@ -113,7 +113,9 @@ Print Assumptions C36_wrong_password_refuted.
 
 (** "exporting then importing reproduces the key": the exported blob, imported (with the same
     password) into any slot of any reachable store that holds a key under that password,
-    succeeds, and Key then returns the exported key. *)
+    succeeds, and Key then returns the exported key.  [bak_ok]: the file name leaves room for
+    the ".bak.<unix seconds>" suffix of the backup that ImportKey makes (otherwise the rename
+    fails and the import is refused with the key untouched). *)
 Theorem C36_file_export_import :
   forall kdf ctr sha3 keccak dirc, CtrLaw ctr -> KdfLaw kdf ->
   forall h n1 pw salt iv d h' n2 salt' iv',
@@ -121,6 +123,7 @@ Theorem C36_file_export_import :
     snd (fstep kdf ctr sha3 keccak dirc (fst (frun kdf ctr sha3 keccak dirc [] h)) (OExport n1 pw salt iv)) = OutExport d ->
     Forall wf_op h' -> length iv' = 16%nat ->
     (exists k2, svc_read kdf ctr sha3 keccak ver dirc (fst (frun kdf ctr sha3 keccak dirc [] h')) n2 pw = Ok k2) ->
+    (forall p, fname dirc n2 = Some p -> bak_ok p = true) ->
     exists k s2, svc_read kdf ctr sha3 keccak ver dirc (fst (frun kdf ctr sha3 keccak dirc [] h)) n1 pw = Ok k /\
       fstep kdf ctr sha3 keccak dirc (fst (frun kdf ctr sha3 keccak dirc [] h')) (OImport n2 pw d salt' iv') = (s2, OutDone) /\
       forall nk'' salt'' iv'', fstep kdf ctr sha3 keccak dirc s2 (OKey n2 pw nk'' salt'' iv'') = (s2, OutKey k false).
